@@ -419,7 +419,9 @@ func (in *Interp) callSSA(caller *frame, pos token.Pos, fn *ssa.Function, args [
 	}
 	if ext != nil {
 		fr := &frame{in: in, caller: caller, fn: fn, callpos: pos}
-		return ext(fr, args)
+		if r := ext(fr, args); r != (notHandled{}) {
+			return r
+		}
 	}
 	if fn.Blocks == nil {
 		panic(engineErr("no code for function: %s (called from %s)", fn.String(), in.where(caller, pos)))
@@ -613,6 +615,9 @@ func (fr *frame) runDefers() {
 		panic(fr.panic)
 	}
 }
+
+// notHandled is returned by a conditional intrinsic that wants the real body interpreted instead.
+type notHandled struct{}
 
 type continuation int
 
